@@ -181,6 +181,7 @@ func (c *Conn) Read(b []byte) (n int, err error) {
 	// round.
 	for c.readBuf.Len() == 0 {
 		c.readLock.Unlock()
+		verifYield("read.wait", c.stanzaWriter.sid)
 		_, ok := <-c.readReady
 		c.readLock.Lock()
 		if !ok {
@@ -242,6 +243,7 @@ func (c *Conn) flush(t xmlstream.Encoder) error {
 // Any blocked Read or Write operations will be unblocked and return errors.
 // If the write buffer contains data it will be flushed.
 func (c *Conn) Close() error {
+	verifYield("close.claim", c.stanzaWriter.sid)
 	if !c.claimClose() {
 		return nil
 	}
@@ -291,6 +293,7 @@ func (c *Conn) claimClose() bool {
 }
 
 func (c *Conn) closeNoNotify(t xmlstream.Encoder) error {
+	verifYield("close.claim", c.stanzaWriter.sid)
 	if !c.claimClose() {
 		return nil
 	}
